@@ -27,18 +27,22 @@ TARGETS = [18, 19, 20, 21]
 
 # default-domain steps: name -> (lowest, highest source opset at which the spelling is valid, needs conversion)
 STEPS = {
-    "reducemean_attr": (9, 17, True),
-    "reducemax_attr": (11, 17, True),
-    "reducel2_attr": (11, 17, True),
-    "reducesum_attr": (9, 12, True),
-    "unsq_sq_attr": (9, 12, True),
-    "split_attr": (11, 12, True),
-    "softmax_old": (11, 12, True),
+    "reducemean_attr": (7, 17, True),
+    "reducemax_attr": (7, 17, True),
+    "reducel2_attr": (7, 17, True),
+    "reducesum_attr": (7, 12, True),
+    "unsq_sq_attr": (7, 12, True),
+    "split_attr": (7, 12, True),
+    "softmax_old": (7, 12, True),
     # the converter turns these attributes into graph INITIALIZERS of the converted model
-    "pad_attr": (9, 10, True),
-    "clip_attr": (9, 10, True),
-    "relu": (9, 17, False),
-    "add_self": (9, 17, False),
+    "pad_attr": (7, 10, True),
+    "clip_attr": (7, 10, True),
+    # Upsample: `scales` attribute (7-8) -> input (9) -> Resize (10 ->): again an initializer after conversion
+    "upsample_attr": (7, 8, True),
+    "upsample_input": (9, 9, True),
+    "resize10": (10, 10, True),
+    "relu": (7, 17, False),
+    "add_self": (7, 17, False),
 }
 CUSTOMS = ["ScaleShift", "AddMul", "MaybeBias", "Tagged"]
 
@@ -50,7 +54,7 @@ def gen_spec(rng, idx: int):
     if idx % 5 == 0:
         src = rng.choice([11, 12])  # the attribute-carried spellings
     if idx % 4 == 3:
-        src = rng.choice([9, 10])   # Pad / Clip with attributes: conversion introduces graph initializers
+        src = rng.choice([7, 8, 9, 10])   # Pad / Clip / Upsample with attributes: conversion introduces initializers
     target = TARGETS[(idx // 2) % 4]
     dom = DOMAINS[idx % len(DOMAINS)]
     cv = 1 + idx % 4
@@ -59,7 +63,7 @@ def gen_spec(rng, idx: int):
     n_steps = rng.randrange(1, 4)
     steps = [rng.choice(need)] + [rng.choice(avail) for _ in range(n_steps - 1)]
     if src <= 10:
-        steps[0] = ["pad_attr", "clip_attr"][idx // 4 % 2]
+        steps[0] = ["pad_attr", "clip_attr", {7: "upsample_attr", 8: "upsample_attr", 9: "upsample_input", 10: "resize10"}[src]][(idx // 4 + idx // 12) % 3]
     rng.shuffle(steps)
     chain = [("d", s) for s in steps]
     n_custom = rng.randrange(1, 4)
@@ -99,6 +103,8 @@ def np_step(np, name, x):
         return np.pad(x, [(0, 0)] * (x.ndim - 1) + [(1, 2)], constant_values=0.5)
     if name == "clip_attr":
         return np.clip(x, -0.25, 0.75)
+    if name in ("upsample_attr", "upsample_input", "resize10"):
+        return np.repeat(x, 2, axis=-1)
     if name == "relu":
         return np.maximum(x, 0)
     if name == "add_self":
@@ -155,6 +161,15 @@ def onnx_nodes(onnx, chain, x_name, prefix, shape, np):
                                          pads=[0] * (r - 1) + [1] + [0] * (r - 1) + [2], name=f"{prefix}n{i}"))
             elif s == "clip_attr":
                 nodes.append(h.make_node("Clip", [cur], [out], min=-0.25, max=0.75, name=f"{prefix}n{i}"))
+            elif s == "upsample_attr":
+                nodes.append(h.make_node("Upsample", [cur], [out], mode="nearest",
+                                         scales=[1.0] * (len(dummy.shape) - 1) + [2.0], name=f"{prefix}n{i}"))
+            elif s in ("upsample_input", "resize10"):
+                r = len(dummy.shape)
+                nodes.append(h.make_node("Constant", [], [out + "sc"], name=f"{prefix}n{i}c",
+                                         value=h.make_tensor(out + "sc", onnx.TensorProto.FLOAT, [r], [1.0] * (r - 1) + [2.0])))
+                nodes.append(h.make_node("Upsample" if s == "upsample_input" else "Resize", [cur, out + "sc"], [out],
+                                         mode="nearest", name=f"{prefix}n{i}"))
             elif s == "relu":
                 nodes.append(h.make_node("Relu", [cur], [out], name=f"{prefix}n{i}"))
             elif s == "add_self":
